@@ -45,7 +45,12 @@ def plan(tier):
            ('pair|tori-rotated-about-centre', _PER[tier])]
     for kind, fams in ELEMENTARY_FAMILIES.items():
         for fam in fams:
-            out.append((f'{kind}|{fam}', _PER[tier]))
+            count = _PER[tier]
+            if tier == 'quick' and fam in ('3pt-D0-flat', '3pt-D0-large'):
+                # decided by rounding noise: one card in ten or twenty shows
+                # a wrong tolerance, and a case costs a few milliseconds
+                count = 60
+            out.append((f'{kind}|{fam}', count))
     return out
 
 
